@@ -3,6 +3,7 @@ import pyModeS as pms
 from ref import frames, gillham
 from vlib import variants
 from vlib import volume
+from vlib import gen
 from vlib.core import Leg, call
 
 PROPERTY = "C07"
@@ -64,8 +65,8 @@ def enum_carriers(ctx):
                 continue
             rng = ctx.rng("car", code, df)
             rdf = ctx.rng("car-fixed", df)  # one context shared by all codes of a format: consecutive frames differ in the altitude field (and parity) only
-            yield {"code": code, "df": df, "ctx": [[rng.getrandbits(14), rng.getrandbits(56), rng.getrandbits(24), rng.choice("ULM")] for _ in range(k)] +
-                   [[rdf.getrandbits(14), rdf.getrandbits(56), rdf.getrandbits(24), "U"]]}
+            yield {"code": code, "df": df, "ctx": [[rng.getrandbits(14), rng.getrandbits(56), gen.addr24(rng), rng.choice("ULM")] for _ in range(k)] +
+                   [[rdf.getrandbits(14), rdf.getrandbits(56), gen.addr24(rdf), "U"]]}
 
 
 def chk_carriers(case, note):
@@ -108,8 +109,8 @@ def enum_adsb12(ctx):
             rng = ctx.rng("adsb", field, tc)
             k = 3 if ctx.tier == "quick" else 30
             rtc = ctx.rng("adsb-fixed", tc)
-            yield {"field": field, "tc": tc, "ctx": [[rng.getrandbits(3), rng.getrandbits(36), rng.getrandbits(24), rng.choice([17, 18]), rng.choice("ULM"), rng.getrandbits(3)] for _ in range(k)] +
-                   [[rtc.getrandbits(3), rtc.getrandbits(36), rtc.getrandbits(24), 17, "U", 5]]}
+            yield {"field": field, "tc": tc, "ctx": [[rng.getrandbits(3), rng.getrandbits(36), gen.addr24(rng), rng.choice([17, 18]), rng.choice("ULM"), rng.getrandbits(3)] for _ in range(k)] +
+                   [[rtc.getrandbits(3), rtc.getrandbits(36), gen.addr24(rtc), 17, "U", 5]]}
 
 
 def chk_adsb12(case, note):
@@ -207,7 +208,7 @@ def first_jobs(rng):
         body = (rng.getrandbits(14) << 13) | code
         if n == 112:
             body = (body << 56) | rng.getrandbits(56)
-        msg = frames.tohex(frames.raw(df, body, n, rng.getrandbits(24)), n, "U")
+        msg = frames.tohex(frames.raw(df, body, n, gen.addr24(rng)), n, "U")
         jobs.append(("common.altcode", (msg,), (lambda got, code=code, msg=msg: judge(got, code, "common.altcode(%s)" % msg))))
     return jobs
 
